@@ -29,7 +29,7 @@ pub fn root(
                 btime
             };
 
-            start.elapsed().as_millis() >= (ustime / mtg.unwrap_or(30)) as u128
+            start.elapsed().as_millis() >= (ustime / mtg.unwrap_or(30).max(1)) as u128
         }
         settings::Type::Movetime(time) => start.elapsed().as_millis() >= time as u128,
         settings::Type::Depth(d) => stats.depth > d,
